@@ -2,7 +2,7 @@
     is explored by the check, not proved).  Only pinned statements, [exact], [Print Assumptions].
     [f_orig] = checked twin of the code at the pinned commit, [f] = checked twin of the repaired code. *)
 From BV Require Import Base.Prelude NoPanic.Mach NoPanic.Brace NoPanic.Substring NoPanic.Vars
-  NoPanic.Tilde NoPanic.History NoPanic.Pow NoPanic.BraceProofs NoPanic.SubstringProofs NoPanic.OtherProofs.
+  NoPanic.Tilde NoPanic.History NoPanic.Pow NoPanic.FirstChar NoPanic.BraceProofs NoPanic.SubstringProofs NoPanic.OtherProofs.
 
 (** *** brace sequences: rule number() *)
 Theorem c01_no_panic_number : forall tok, number tok <> Panic.
@@ -200,6 +200,25 @@ Print Assumptions c01_no_panic_deref_subscripts.
 Theorem c01_deref_subscript_cycle_fails : aeval 4000 cycle_env (AElem 0 (AVar 0)) 0 = Fail.
 Proof. exact aeval_subscript_cycle_fails. Qed.
 Print Assumptions c01_deref_subscript_cycle_fails.
+
+(** *** ${v^} / ${v,}: first-character case modification *)
+Theorem c01_no_panic_first_char_case : forall s applicable mapped, first_char_case s applicable mapped <> Panic.
+Proof. exact no_panic_first_char_case. Qed.
+Print Assumptions c01_no_panic_first_char_case.
+
+Theorem c01_first_char_case_spec : forall s applicable mapped,
+  first_char_case s applicable mapped =
+  Val (match s, applicable, mapped with
+       | c :: r, true, u :: _ => u :: r
+       | _, _, _ => s
+       end).
+Proof. exact first_char_case_spec. Qed.
+Print Assumptions c01_first_char_case_spec.
+
+(** slicing the rest at the CONVERTED character's byte length panics (dotless i -> I) *)
+Theorem c01_first_char_case_wrong_index_refuted : exists s mapped, first_char_case_wrong s true mapped = Panic.
+Proof. exact first_char_case_wrong_refuted. Qed.
+Print Assumptions c01_first_char_case_wrong_index_refuted.
 
 (** non-vacuity: the hypotheses of the conditional theorems are satisfiable and the functions do
     produce values *)
